@@ -58,6 +58,7 @@ class State:
         self.handling: List[Val] = []  # stack of exceptions being handled (for bare `raise`)
         self.spec_env: Dict[str, Val] = {}
         self.class_scope = None
+        self.written_cells = None
 
     def fork(self) -> "State":
         s = State.__new__(State)
@@ -79,6 +80,7 @@ class State:
         s.handling = list(self.handling)
         s.spec_env = self.spec_env
         s.class_scope = self.class_scope
+        s.written_cells = self.written_cells
         return s
 
     # ------------------------------------------------------------ heap
@@ -95,16 +97,22 @@ class State:
     def hread(self, field: str, r):
         return z3.Select(self.harr(field), r)
 
-    def hwrite(self, field: str, r, v) -> None:
-        self.heap[field] = z3.Store(self.harr(field), r, v)
+    def hwrite(self, field: str, r, v, guard=None) -> None:
+        cur = self.harr(field)
+        new = z3.Store(cur, r, v)
+        self.heap[field] = new if guard is None else z3.If(guard, new, cur)
         if self.written is not None:
             self.written.add(field)
+            if self.written_cells is not None:
+                self.written_cells.setdefault(field, []).append(r)
 
     def havoc_field(self, field: str) -> None:
         self.harr(field)
         self.heap[field] = fresh("H_" + field, field_sort(field))
         if self.written is not None:
             self.written.add(field)
+            if self.written_cells is not None:
+                self.written_cells.setdefault(field, []).append(None)
 
     def alloc_bound(self):
         return self.alloc0 + self.nalloc
